@@ -1,7 +1,7 @@
 (* C08 -- Wildcard matching is IAM glob matching, never regular-expression matching.
-   Statements only; every proof is [exact] of a lemma proved in Glob/Glob.v. *)
+   Statements only; every proof is [exact] of a lemma proved in Glob/Glob.v or Glob/GlobAlgebra.v (the algebra of patterns). *)
 From Coq Require Import List Bool NArith.
-From PV Require Import Base.Str Glob.Glob Run.RState.
+From PV Require Import Base.Str Glob.Glob Glob.GlobAlgebra Run.RState.
 Import ListNotations.
 
 (* For EVERY alphabet with decidable equality and any two wildcard characters: the matcher accepts
@@ -76,3 +76,292 @@ Example C08_ex_star_qm : glob_cs [97;42;63;122] [97;98;99;100;122] = true /\ glo
 Proof. split; vm_compute; reflexivity. Qed.
 Example C08_ex_like_case_sensitive : glob_cs [97;42] [65;98] = false /\ glob_ci [97;42] [65;98] = true.
 Proof. split; vm_compute; reflexivity. Qed.
+
+(* ================================================================================================ *)
+(* THE ALGEBRA OF PATTERNS (Glob/GlobAlgebra.v): for every alphabet, every pattern, every text, no bound on lengths.
+   Below, [p ++ x ++ q] is "x somewhere inside a pattern": p and q are arbitrary (wildcards included). *)
+Local Close Scope N_scope.
+
+(* concatenation: a text matches p ++ q iff it is a text matching p followed by a text matching q *)
+Theorem C08_concat :
+  forall (A : Type) (eqb : A -> A -> bool), (forall a b, eqb a b = true <-> a = b) ->
+  forall (star qm : A) (p q s : list A),
+    glob_match A eqb star qm (p ++ q) s = true <->
+    exists s1 s2, s = s1 ++ s2 /\ glob_match A eqb star qm p s1 = true /\ glob_match A eqb star qm q s2 = true.
+Proof. exact glob_app. Qed.
+Print Assumptions C08_concat.
+
+(* congruence: patterns with the same language may be exchanged inside any pattern *)
+Theorem C08_congruence :
+  forall (A : Type) (eqb : A -> A -> bool), (forall a b, eqb a b = true <-> a = b) ->
+  forall (star qm : A) (x y p q : list A),
+    (forall s, glob_match A eqb star qm x s = glob_match A eqb star qm y s) ->
+    forall s, glob_match A eqb star qm (p ++ x ++ q) s = glob_match A eqb star qm (p ++ y ++ q) s.
+Proof. exact geq_ctx. Qed.
+Print Assumptions C08_congruence.
+
+(* 1. "**" is "*"; a run of stars of any length is one star *)
+Theorem C08_star_star :
+  forall (A : Type) (eqb : A -> A -> bool), (forall a b, eqb a b = true <-> a = b) ->
+  forall (star qm : A) (p q s : list A),
+    glob_match A eqb star qm (p ++ [star; star] ++ q) s = glob_match A eqb star qm (p ++ [star] ++ q) s.
+Proof. exact star_star. Qed.
+Print Assumptions C08_star_star.
+
+Theorem C08_star_run :
+  forall (A : Type) (eqb : A -> A -> bool), (forall a b, eqb a b = true <-> a = b) ->
+  forall (star qm : A) (p q : list A) (n : nat) (s : list A),
+    glob_match A eqb star qm (p ++ repeat star (S n) ++ q) s = glob_match A eqb star qm (p ++ [star] ++ q) s.
+Proof. exact star_run. Qed.
+Print Assumptions C08_star_run.
+
+(* 2. "*?" is "?*" *)
+Theorem C08_star_question_commute :
+  forall (A : Type) (eqb : A -> A -> bool), (forall a b, eqb a b = true <-> a = b) ->
+  forall (star qm : A) (p q s : list A),
+    glob_match A eqb star qm (p ++ [star; qm] ++ q) s = glob_match A eqb star qm (p ++ [qm; star] ++ q) s.
+Proof. exact star_qm_commute. Qed.
+Print Assumptions C08_star_question_commute.
+
+(* a run w of wildcards, in any order, holding k = [qms w] question marks and at least one star, is ?^k followed by ONE star ... *)
+Theorem C08_wildcard_run :
+  forall (A : Type) (eqb : A -> A -> bool), (forall a b, eqb a b = true <-> a = b) ->
+  forall (star qm : A) (p q w s : list A),
+    star <> qm -> wild_run A star qm w -> In star w ->
+    glob_match A eqb star qm (p ++ w ++ q) s =
+    glob_match A eqb star qm (p ++ (repeat qm (qms A eqb qm w) ++ [star]) ++ q) s.
+Proof. exact wild_run_canonical. Qed.
+Print Assumptions C08_wildcard_run.
+
+(* ... which says: "at least k characters here" -- and nothing else *)
+Theorem C08_wildcard_run_meaning :
+  forall (A : Type) (eqb : A -> A -> bool), (forall a b, eqb a b = true <-> a = b) ->
+  forall (star qm : A) (p q w s : list A),
+    star <> qm -> wild_run A star qm w -> In star w ->
+    (glob_match A eqb star qm (p ++ w ++ q) s = true <->
+     exists s1 m s2, s = s1 ++ m ++ s2 /\ glob_match A eqb star qm p s1 = true /\ qms A eqb qm w <= length m
+                     /\ glob_match A eqb star qm q s2 = true).
+Proof. exact wild_run_ctx_length. Qed.
+Print Assumptions C08_wildcard_run_meaning.
+
+(* a run of wildcards with NO star is ?^k: exactly k characters *)
+Theorem C08_question_run :
+  forall (A : Type) (eqb : A -> A -> bool), (forall a b, eqb a b = true <-> a = b) ->
+  forall (star qm : A) (w : list A),
+    star <> qm -> wild_run A star qm w -> ~ In star w ->
+    w = repeat qm (qms A eqb qm w) /\
+    forall s, glob_match A eqb star qm w s = true <-> length s = qms A eqb qm w.
+Proof. exact wild_run_no_star. Qed.
+Print Assumptions C08_question_run.
+
+(* 3. BUT "*?" is NOT "*".  "p*?q" asks for one character more than "p*q" does: on the text that has NOTHING in that place --
+   p and q with their stars deleted, side by side -- "p*q" matches and "p*?q" does not.  (A seeded change collapsed "*?" to "*".) *)
+Theorem C08_star_question_is_not_star :
+  forall (A : Type) (eqb : A -> A -> bool), (forall a b, eqb a b = true <-> a = b) ->
+  forall (star qm : A) (p q : list A), star <> qm ->
+    glob_match A eqb star qm (p ++ [star] ++ q) (witness A eqb star p ++ witness A eqb star q) = true /\
+    glob_match A eqb star qm (p ++ [star; qm] ++ q) (witness A eqb star p ++ witness A eqb star q) = false.
+Proof. exact star_qm_is_not_star. Qed.
+Print Assumptions C08_star_question_is_not_star.
+
+(* the length constraint: a text matching "p*?q" has at least one character more than the non-star symbols of p and q *)
+Theorem C08_star_question_length :
+  forall (A : Type) (eqb : A -> A -> bool), (forall a b, eqb a b = true <-> a = b) ->
+  forall (star qm : A) (p q s : list A), star <> qm ->
+    glob_match A eqb star qm (p ++ [star; qm] ++ q) s = true ->
+    nonstar A eqb star p + 1 + nonstar A eqb star q <= length s.
+Proof. exact star_qm_length. Qed.
+Print Assumptions C08_star_question_length.
+
+(* exactly: "p*?" matches the texts matched by "p*" with one more character at the end *)
+Theorem C08_star_question_one_more :
+  forall (A : Type) (eqb : A -> A -> bool), (forall a b, eqb a b = true <-> a = b) ->
+  forall (star qm : A) (p s : list A), star <> qm ->
+    (glob_match A eqb star qm (p ++ [star; qm]) s = true <->
+     exists s' c, s = s' ++ [c] /\ glob_match A eqb star qm (p ++ [star]) s' = true).
+Proof. exact star_qm_needs_one. Qed.
+Print Assumptions C08_star_question_one_more.
+
+(* 4. normal form: [norm] rewrites every maximal run of wildcards to ?^k or ?^k* ([normal]: no star is followed by a wildcard).
+   Same language; idempotent; its result is normal; it changes exactly the patterns that are not normal. *)
+Theorem C08_normal_form :
+  forall (A : Type) (eqb : A -> A -> bool), (forall a b, eqb a b = true <-> a = b) ->
+  forall (star qm : A) (p : list A),
+    (forall s, glob_match A eqb star qm (norm A eqb star qm p) s = glob_match A eqb star qm p s) /\
+    norm A eqb star qm (norm A eqb star qm p) = norm A eqb star qm p /\
+    normal A star qm (norm A eqb star qm p) /\
+    (norm A eqb star qm p = p <-> normal A star qm p).
+Proof.
+  intros A eqb H star qm p.
+  exact (conj (norm_correct A eqb H star qm p) (conj (norm_idempotent A eqb H star qm p)
+        (conj (norm_is_normal A eqb H star qm p) (norm_fixed_iff A eqb H star qm p)))).
+Qed.
+Print Assumptions C08_normal_form.
+
+(* [normal] is what it says (unfolded), and it is decidable by [normalb] *)
+Theorem C08_normal_meaning :
+  forall (A : Type) (eqb : A -> A -> bool), (forall a b, eqb a b = true <-> a = b) ->
+  forall (star qm : A) (p : list A),
+    (normal A star qm p <-> forall l c r, p = l ++ star :: c :: r -> c <> star /\ c <> qm) /\
+    (normalb A eqb star qm p = true <-> normal A star qm p).
+Proof. intros A eqb H star qm p. exact (conj (iff_refl _) (normalb_spec A eqb H star qm p)). Qed.
+Print Assumptions C08_normal_meaning.
+
+(* norm only deletes and moves stars: the non-star symbols (literals and question marks), in their order, are untouched --
+   in particular the literal characters and their order ([lits]); the result is never longer *)
+Theorem C08_normal_form_keeps_symbols :
+  forall (A : Type) (eqb : A -> A -> bool), (forall a b, eqb a b = true <-> a = b) ->
+  forall (star qm : A) (p : list A),
+    witness A eqb star (norm A eqb star qm p) = witness A eqb star p /\
+    lits A eqb star qm (norm A eqb star qm p) = lits A eqb star qm p /\
+    length (norm A eqb star qm p) <= length p.
+Proof.
+  intros A eqb H star qm p.
+  exact (conj (norm_witness A eqb H star qm p) (conj (norm_lits A eqb H star qm p) (norm_length A eqb star qm p))).
+Qed.
+Print Assumptions C08_normal_form_keeps_symbols.
+
+(* 5. minimal length: a matched text is at least as long as the pattern has non-star symbols; the bound is attained *)
+Theorem C08_min_length :
+  forall (A : Type) (eqb : A -> A -> bool), (forall a b, eqb a b = true <-> a = b) ->
+  forall (star qm : A) (p s : list A),
+    glob_match A eqb star qm p s = true -> length (filter (fun c => negb (eqb c star)) p) <= length s.
+Proof. exact min_length. Qed.
+Print Assumptions C08_min_length.
+Theorem C08_min_length_attained :
+  forall (A : Type) (eqb : A -> A -> bool), (forall a b, eqb a b = true <-> a = b) ->
+  forall (star qm : A) (p : list A),
+    glob_match A eqb star qm p (witness A eqb star p) = true /\
+    length (witness A eqb star p) = length (filter (fun c => negb (eqb c star)) p).
+Proof. exact min_length_attained. Qed.
+Print Assumptions C08_min_length_attained.
+
+(* 7. the laws IAM users rely on, for a literal [lit] (no wildcard in it; literal-only patterns match only themselves: C08_literal) *)
+Theorem C08_prefix_law :
+  forall (A : Type) (eqb : A -> A -> bool), (forall a b, eqb a b = true <-> a = b) ->
+  forall (star qm : A) (lit s : list A), no_wild A star qm lit ->
+    (glob_match A eqb star qm (lit ++ [star]) s = true <-> exists r, s = lit ++ r).
+Proof. exact prefix_law. Qed.
+Print Assumptions C08_prefix_law.
+Theorem C08_suffix_law :
+  forall (A : Type) (eqb : A -> A -> bool), (forall a b, eqb a b = true <-> a = b) ->
+  forall (star qm : A) (lit s : list A), no_wild A star qm lit ->
+    (glob_match A eqb star qm ([star] ++ lit) s = true <-> exists r, s = r ++ lit).
+Proof. exact suffix_law. Qed.
+Print Assumptions C08_suffix_law.
+Theorem C08_infix_law :
+  forall (A : Type) (eqb : A -> A -> bool), (forall a b, eqb a b = true <-> a = b) ->
+  forall (star qm : A) (lit s : list A), no_wild A star qm lit ->
+    (glob_match A eqb star qm ([star] ++ lit ++ [star]) s = true <-> exists l r, s = l ++ lit ++ r).
+Proof. exact infix_law. Qed.
+Print Assumptions C08_infix_law.
+(* "l1*l2": starts with l1 and ends with l2, WITHOUT overlap *)
+Theorem C08_between_law :
+  forall (A : Type) (eqb : A -> A -> bool), (forall a b, eqb a b = true <-> a = b) ->
+  forall (star qm : A) (l1 l2 s : list A), no_wild A star qm l1 -> no_wild A star qm l2 ->
+    (glob_match A eqb star qm (l1 ++ [star] ++ l2) s = true <-> exists m, s = l1 ++ m ++ l2).
+Proof. exact between_law. Qed.
+Print Assumptions C08_between_law.
+
+(* 6. the case-insensitive matcher IS the matcher on the folded pattern and the folded text (any fold); folding the pattern
+   beforehand changes nothing (idempotent fold) *)
+Theorem C08_ci_is_folded :
+  forall (A : Type) (eqb : A -> A -> bool) (star qm : A) (fold : A -> A) (p s : list A),
+    glob_match_ci A eqb star qm fold p s = glob_match A eqb star qm (map fold p) (map fold s).
+Proof. exact glob_ci_is_folded. Qed.
+Print Assumptions C08_ci_is_folded.
+Theorem C08_ci_fold_pattern :
+  forall (A : Type) (eqb : A -> A -> bool) (star qm : A) (fold : A -> A) (p s : list A),
+    (forall c, fold (fold c) = fold c) ->
+    glob_match_ci A eqb star qm fold (map fold p) s = glob_match_ci A eqb star qm fold p s.
+Proof. exact glob_ci_fold_pattern. Qed.
+Print Assumptions C08_ci_fold_pattern.
+
+(* the algebra holds for the case-insensitive matcher too, whenever the fold neither creates nor destroys a wildcard
+   (ASCII lowering does not: Actions/ExpandAlgebra.v, lower_cp_star / lower_cp_qm; the instance is in C09) *)
+Theorem C08_ci_algebra :
+  forall (A : Type) (eqb : A -> A -> bool), (forall a b, eqb a b = true <-> a = b) ->
+  forall (star qm : A) (fold : A -> A),
+    (forall c, eqb (fold c) star = eqb c star) -> (forall c, eqb (fold c) qm = eqb c qm) ->
+  forall (p q s : list A),
+    (forall n, glob_match_ci A eqb star qm fold (p ++ repeat star (S n) ++ q) s
+               = glob_match_ci A eqb star qm fold (p ++ [star] ++ q) s) /\
+    glob_match_ci A eqb star qm fold (p ++ [star; qm] ++ q) s = glob_match_ci A eqb star qm fold (p ++ [qm; star] ++ q) s /\
+    glob_match_ci A eqb star qm fold (norm A eqb star qm p) s = glob_match_ci A eqb star qm fold p s /\
+    map fold (norm A eqb star qm p) = norm A eqb star qm (map fold p) /\
+    (glob_match_ci A eqb star qm fold p s = true -> length (filter (fun c => negb (eqb c star)) p) <= length s).
+Proof.
+  intros A eqb H star qm fold Hs Hq p q s.
+  exact (conj (fun n => ci_star_run A eqb H star qm fold Hs p q n s)
+        (conj (ci_star_qm_commute A eqb H star qm fold Hs Hq p q s)
+        (conj (ci_norm_correct A eqb H star qm fold Hs Hq p s)
+        (conj (norm_map_fold A eqb H star qm fold Hs Hq p) (ci_min_length A eqb H star qm fold Hs p s))))).
+Qed.
+Print Assumptions C08_ci_algebra.
+
+(* ---- the running instance ('*' = 42, '?' = 63): hypotheses are satisfiable, statements are not vacuous ---- *)
+Local Open Scope N_scope.
+(* a=97 b=98 c=99 x=120 y=121 z=122 *)
+Example C08_ex_wildcards_differ : STAR <> QM.
+Proof. discriminate. Qed.
+Example C08_ex_concat : glob_cs ([97;42] ++ [63;98]) ([97;120] ++ [121;98]) = true /\ glob_cs [97;42] [97;120] = true /\ glob_cs [63;98] [121;98] = true.
+Proof. vm_compute. repeat split; reflexivity. Qed.
+(* "a**b" ~ "a*b" ; "a*****b" *)
+Example C08_ex_star_star :
+  glob_cs ([97] ++ [42;42] ++ [98]) [97;120;121;98] = true /\ glob_cs ([97] ++ [42] ++ [98]) [97;120;121;98] = true /\
+  glob_cs ([97] ++ repeat 42 5 ++ [98]) [97;98] = true /\ glob_cs ([97] ++ [42;42] ++ [98]) [97;120] = false.
+Proof. vm_compute. repeat split; reflexivity. Qed.
+(* "a*?b" ~ "a?*b": both need one character between a and b *)
+Example C08_ex_star_question_commute :
+  glob_cs ([97] ++ [42;63] ++ [98]) [97;120;98] = true /\ glob_cs ([97] ++ [63;42] ++ [98]) [97;120;98] = true /\
+  glob_cs ([97] ++ [42;63] ++ [98]) [97;98] = false /\ glob_cs ([97] ++ [63;42] ++ [98]) [97;98] = false.
+Proof. vm_compute. repeat split; reflexivity. Qed.
+(* the run "?*?*" : a wildcard run with a star and two question marks = "??*" *)
+Example C08_ex_wildcard_run :
+  wild_run N STAR QM [63;42;63;42] /\ In STAR [63;42;63;42] /\ qms N N.eqb QM [63;42;63;42] = 2%nat /\
+  glob_cs ([97] ++ [63;42;63;42] ++ [98]) [97;120;121;122;98] = true /\ glob_cs ([97] ++ [63;42;63;42] ++ [98]) [97;120;98] = false /\
+  wild_run N STAR QM [63;63] /\ ~ In STAR [63;63].
+Proof.
+  assert (Hrun : forall w, Forall (fun c => c = 42 \/ c = 63) w -> wild_run N STAR QM w) by (intros w Hw; exact Hw).
+  split; [apply Hrun; repeat (apply Forall_cons; [(left; reflexivity) || (right; reflexivity)|]); apply Forall_nil|].
+  split; [right; left; reflexivity|]. split; [reflexivity|].
+  split; [vm_compute; reflexivity|]. split; [vm_compute; reflexivity|].
+  split; [apply Hrun; repeat (apply Forall_cons; [(left; reflexivity) || (right; reflexivity)|]); apply Forall_nil|].
+  intros [H|[H|[]]]; discriminate.
+Qed.
+(* THE WITNESS: "a*?" against "a" -- nothing in that place.  "a*" matches it, "a*?" does not; "a*?" matches "ab". *)
+Example C08_ex_star_question_is_not_star :
+  glob_cs [97;42] [97] = true /\ glob_cs [97;42;63] [97] = false /\ glob_cs [97;42;63] [97;98] = true /\
+  witness N N.eqb STAR [97] ++ witness N N.eqb STAR [] = [97].
+Proof. vm_compute. repeat split; reflexivity. Qed.
+Example C08_star_question_collapse_refuted :
+  exists p s, glob_cs (p ++ [STAR; QM]) s <> glob_cs (p ++ [STAR]) s.
+Proof. exists [97], [97]. vm_compute. discriminate. Qed.
+(* norm "a*?*?b**" = "a??*b*" ; it is normal, the input is not; "?a?***c?" -> "?a?*c?" *)
+Example C08_ex_normal_form :
+  norm N N.eqb STAR QM [97;42;63;42;63;98;42;42] = [97;63;63;42;98;42] /\
+  normalb N N.eqb STAR QM [97;63;63;42;98;42] = true /\ normalb N N.eqb STAR QM [97;42;63;42;63;98;42;42] = false /\
+  norm N N.eqb STAR QM [63;97;63;42;42;42;99;63] = [63;97;63;42;99;63] /\
+  lits N N.eqb STAR QM [97;42;63;42;63;98;42;42] = [97;98] /\ witness N N.eqb STAR [97;42;63;42;63;98;42;42] = [97;63;63;98].
+Proof. vm_compute. repeat split; reflexivity. Qed.
+(* "a*?b" matches "axb" (length 3 = its three non-star symbols) *)
+Example C08_ex_min_length :
+  glob_cs [97;42;63;98] [97;120;98] = true /\ length (filter (fun c => negb (N.eqb c STAR)) [97;42;63;98]) = 3%nat.
+Proof. vm_compute. split; reflexivity. Qed.
+(* "s3:*" / "*Object" / "*Get*" / "s3:*Acl", with regex metacharacters as literals: "a.b*" *)
+Example C08_ex_prefix_suffix :
+  no_wild N STAR QM [115;51;58] /\ glob_cs ([115;51;58] ++ [42]) [115;51;58;71;101;116] = true /\ glob_cs ([115;51;58] ++ [42]) [115;51] = false /\
+  glob_cs ([42] ++ [101;116]) [115;51;58;71;101;116] = true /\ glob_cs ([42] ++ [101;116]) [101;116;115] = false /\
+  glob_cs ([42] ++ [58;71] ++ [42]) [115;51;58;71;101;116] = true /\
+  glob_cs ([97;98] ++ [42] ++ [98;99]) [97;98;99] = false /\ glob_cs ([97;98] ++ [42] ++ [98;99]) [97;98;98;99] = true /\
+  no_wild N STAR QM [97;46;98] /\ glob_cs ([97;46;98] ++ [42]) [97;120;98;99] = false.
+Proof.
+  split; [repeat constructor; discriminate|]. repeat (split; [vm_compute; reflexivity|]).
+  split; [repeat constructor; discriminate|]. vm_compute; reflexivity.
+Qed.
+(* action names: "S3:GET*?" (folded "s3:get*?") against "s3:GetX" and "s3:Get" *)
+Example C08_ex_ci_algebra :
+  (forall c, N.eqb (lower_cp (lower_cp c)) (lower_cp c) = true) /\
+  glob_ci [83;51;58;71;69;84;42;63] [115;51;58;71;101;116;88] = true /\ glob_ci [83;51;58;71;69;84;42;63] [115;51;58;71;101;116] = false /\
+  glob_ci [83;51;58;71;69;84;63;42] [115;51;58;71;101;116;88] = true /\ glob_ci [83;51;58;71;69;84;42] [115;51;58;71;101;116] = true.
+Proof. split; [intros c; rewrite lower_cp_idem; apply N.eqb_refl|]. vm_compute. repeat split; reflexivity. Qed.
